@@ -70,12 +70,12 @@ pub fn webpki_chain(leaf: &[u8], intermediates: &[Vec<u8>], root: &[u8], unix_ti
 		_ => KeyUsage::server_auth(),
 	};
 	let time = UnixTime::since_unix_epoch(std::time::Duration::from_secs(unix_time.max(0) as u64));
-	let parsed: Vec<webpki::CertRevocationList> = crls
-		.iter()
-		.filter_map(|c| webpki::OwnedCertRevocationList::from_der(c).ok().map(webpki::CertRevocationList::from))
-		.collect();
-	if parsed.len() != crls.len() {
-		return json!({"accept": false, "why": "crl: unparsable"});
+	let mut parsed: Vec<webpki::CertRevocationList> = Vec::new();
+	for c in crls {
+		match webpki::OwnedCertRevocationList::from_der(c) {
+			Ok(o) => parsed.push(webpki::CertRevocationList::from(o)),
+			Err(e) => return json!({"accept": false, "why": format!("crl: unparsable: {:?}", e)}),
+		}
 	}
 	let refs: Vec<&webpki::CertRevocationList> = parsed.iter().collect();
 	let rev = if refs.is_empty() {
